@@ -107,22 +107,26 @@ type Result struct {
 }
 
 type Explorer struct {
-	Prog    *ssa.Program
-	Pkg     *ssa.Package
-	Fn      *ssa.Function
-	C       *smt.Ctx
-	S       *smt.Solver
-	Lim     Limits
-	Params  map[string]int
-	Res     *Result
-	Debug   bool
-	Mode    string // "seq" or "conc"
-	Known   map[string]string // finding id -> status ("known"/"fixed")
-	prefix  []event
-	lastTr  []event
-	start   time.Time
+	Prog       *ssa.Program
+	Pkg        *ssa.Package
+	Fn         *ssa.Function
+	C          *smt.Ctx
+	S          *smt.Solver
+	Lim        Limits
+	Params     map[string]int
+	Res        *Result
+	Debug      bool
+	Mode       string            // "seq" or "conc"
+	Known      map[string]string // finding id -> status ("known"/"fixed")
+	prefix     []event
+	lastTr     []event
+	start      time.Time
 	lastCharge time.Time
-	Verbose bool
+	Verbose    bool
+
+	Race        bool // happens-before data-race detection on every path
+	raceFnCache map[*ssa.Function]bool
+	raceSeen    map[string]bool
 
 	Preempt    int // CONC: bound on preemptive context switches per path
 	Seed       int
@@ -275,6 +279,7 @@ type Thread struct {
 	yielded bool
 
 	hook       bool
+	vc         VC  // happens-before clock (race detection)
 	blockCount int // number of times this thread parked in a blocking operation
 	inDrain    bool
 }
@@ -323,13 +328,14 @@ type Machine struct {
 	timers     []*timerRec
 	warned     map[string]bool
 
-	deadlineCtx []Iface
-	observed    []obsTerm
+	deadlineCtx  []Iface
+	observed     []obsTerm
 	violatedHere bool
 
-	onSync      Value // harness environment hook run before every synchronisation operation of the main thread
-	inEnv       bool
-	onBlock     Value // harness hook run when no thread can run (terminal state)
+	onSync       Value // harness environment hook run before every synchronisation operation of the main thread
+	inEnv        bool
+	race         raceState
+	onBlock      Value // harness hook run when no thread can run (terminal state)
 	preemptions  int
 	schedLog     []int // CONC: id of the thread chosen at every scheduling decision
 	terminalRuns int
@@ -342,13 +348,13 @@ type obsTerm struct {
 }
 
 type nondetRec struct {
-	tag   string
-	kind  string
-	term  *smt.Term
-	seq   *Seq
-	cval  int
-	isC   bool
-	max   int
+	tag  string
+	kind string
+	term *smt.Term
+	seq  *Seq
+	cval int
+	isC  bool
+	max  int
 }
 
 func (ex *Explorer) runOnce() []event {
@@ -371,6 +377,7 @@ func (ex *Explorer) runOnce() []event {
 		ex.S.Pop(d - shared)
 	}
 	m.synced = shared
+	m.raceInit()
 
 	main := m.newThread("main", ex.Fn, nil)
 	main.started = true
@@ -385,6 +392,7 @@ func (ex *Explorer) runOnce() []event {
 			<-m.parked
 		}
 	}
+	m.raceEnd()
 	ex.Res.PathsEnded[m.endWhy]++
 	ex.Res.Steps += int64(m.steps)
 	return m.trace
@@ -393,6 +401,7 @@ func (ex *Explorer) runOnce() []event {
 func (m *Machine) newThread(name string, fn Value, args []Value) *Thread {
 	t := &Thread{ID: len(m.threads), Name: name, m: m, resume: make(chan struct{}), spawnFn: fn, spawnAr: args}
 	m.threads = append(m.threads, t)
+	m.hbSpawn(t)
 	return t
 }
 
@@ -501,7 +510,17 @@ func (m *Machine) pickThread() *Thread {
 			m.terminalRuns++
 			m.progress = false
 			t := m.newThread("at-terminal", m.onBlock, nil)
+			if m.race.on {
+				for _, o := range m.threads {
+					if o != t {
+						t.vc = t.vc.join(o.vc)
+					}
+				}
+			}
 			t.hook = true
+			if m.ex.Mode == "conc" {
+				m.schedLog = append(m.schedLog, t.ID) // the native player starts the hook at this step
+			}
 			return t
 		}
 		m.terminal()
